@@ -53,7 +53,23 @@ SpellingBlind == \A r1, r2 \in SNIs : Norm(r1) = Norm(r2) =>
 RECURSIVE Dot(_)
 Dot(n) == IF n = <<>> THEN "" ELSE IF Len(n) = 1 THEN n[1] ELSE n[1] \o "." \o Dot(Tail(n))
 CertJson(c) == [cn |-> Dot(c.cn), sans |-> [i \in DOMAIN c.sans |-> Dot(c.sans[i])]]
+\* The listener has a past: before s another set was published on it.  The register holds the
+\* LAST published set only (CertStore!RegIsLastGood), so what a client is presented depends on
+\* s alone -- also when the earlier set was larger, carried the same names in certificates
+\* that have been renewed since ("old"), or a certificate that has been withdrawn ("gone").
+\* Two shapes, by the length of s: the renewed predecessors followed by a withdrawn
+\* certificate, or the withdrawn one first (then the LAST entry of the longer predecessor is
+\* the old certificate of the last name of s).
+Withdrawn(s) == {c \in CertUniverse : WellFormed(Append(s, c))}
+PrevOf(s) ==
+    LET old == [i \in DOMAIN s |-> [cn |-> Dot(s[i].cn), sans |-> [k \in DOMAIN s[i].sans |-> Dot(s[i].sans[k])], mint |-> "old"]]
+        W == Withdrawn(s) IN
+    IF W = {} THEN old
+    ELSE LET g == CHOOSE c \in W : \A d \in W : Len(c.sans) <= Len(d.sans)
+             gone == <<[cn |-> Dot(g.cn), sans |-> [k \in DOMAIN g.sans |-> Dot(g.sans[k])], mint |-> "gone"]>> IN
+         IF Len(s) % 2 = 1 THEN old \o gone ELSE gone \o old
 SelJson(s) == [set |-> [i \in DOMAIN s |-> CertJson(s[i])],
+               prev |-> PrevOf(s),
                q   |-> [k \in DOMAIN SNISeq |-> [sni |-> SNISeq[k],
                                                   lax |-> Select(s, SNISeq[k], FALSE),
                                                   strict |-> Select(s, SNISeq[k], TRUE)]]]
@@ -130,4 +146,24 @@ SrcHistJson(h) == [sets |-> [c \in Good |-> SrcSetJson(SrcSetOf(c))],
 GenSNext == /\ WatcherNext /\ UNCHANGED set
             /\ IF nloads' = MaxLoads /\ wpc' = "load" THEN PrintT(ToJson(SrcHistJson(hist'))) ELSE TRUE
 GenSSpec == MCInit /\ [][GenSNext]_<<vars, set>>
+
+\* ---- listeners (main's wiring): several listeners may name the same certificate source; each
+\* has its own strictness ("strict and non-strict listeners").  What a client of listener i is
+\* presented is Select(set of ITS source, name, ITS strict flag), whatever other listeners exist
+\* and in whatever order they were configured.
+WireSrcContent(src) == IF src = "web" THEN "A" ELSE "B"
+WireListenerSet == {[src |-> s, strict |-> b] : s \in {"web", "api"}, b \in BOOLEAN}
+WireConfigs == {<<a, b>> : a, b \in WireListenerSet} \cup {<<a, b, c>> : a, b, c \in WireListenerSet}
+\* the strictness in force on listener i (a deviation would take it from elsewhere: SharedStrict)
+Effective(ls, i) == ls[i].strict
+SharedStrict(ls, i) == ls[MinOf({j \in DOMAIN ls : ls[j].src = ls[i].src})].strict
+Presented(ls, i, sni) == Select(SrcSetOf(WireSrcContent(ls[i].src)), sni, Effective(ls, i))
+WireAsStated == \A ls \in WireConfigs : \A i \in DOMAIN ls : \A k \in DOMAIN SrcSNISeq :
+                   Presented(ls, i, SrcSNISeq[k]) = Select(SrcSetOf(WireSrcContent(ls[i].src)), SrcSNISeq[k], ls[i].strict)
+WireJson(ls) == [listeners |-> [i \in DOMAIN ls |-> [src |-> ls[i].src, strict |-> IF ls[i].strict THEN 1 ELSE 0,
+                                                      q |-> [k \in DOMAIN SrcSNISeq |-> [sni |-> SrcSNISeq[k], want |-> Presented(ls, i, SrcSNISeq[k])]]]],
+                 sets |-> [web |-> SrcSetJson(SrcSetOf("A")), api |-> SrcSetJson(SrcSetOf("B"))]]
+WirePrint == \A ls \in WireConfigs : set = <<>> /\ PrintT(ToJson(WireJson(ls)))
+WireInit == MCInit /\ WirePrint
+WireSpec == WireInit /\ [][UNCHANGED <<vars, set>>]_<<vars, set>>
 =============================================================================
